@@ -135,7 +135,7 @@ def r1_reject_before_model(ctx):
         ctx.check(sok, f"{DET}.set_readout#store", "stored in self._readout_properties" if sok else "the validated ReadoutProperties is not stored", where=sr, node=st)
         from sa.paths import enumerate_paths
 
-        bare = [q for q in enumerate_paths(sr.node.body) if q.exit in ("fall", "return") and not q.stores("self._readout_properties")]
+        bare = [q for q in enumerate_paths(sr.node.body) if q.exit in ("fall", "return") and not [e_ for e_ in q.stores("self._readout_properties") if e_.target == "self._readout_properties"]]
         ctx.check(not bare, f"{DET}.set_readout#every-call", "every call that returns has installed a freshly validated ReadoutProperties" if not bare else f"set_readout returns without installing the given schedule when {bare[0].cond_texts()} (the previous run's schedule and readout mode stay in force)", where=sr, node=bare[0].exit_node if bare and bare[0].exit_node is not None else sr.node)
         for p in ("times", "start_time", "non_destructive"):
             v = kw(cons[0], p)
@@ -336,9 +336,16 @@ def r4_step_loop(ctx):
             why = f"readout_properties.{attr} = {var} dominates the model run"
         ctx.check(ok, RUN + f"#clock:{attr}", why, where=f, node=(bad or good or [lp])[0])
         # no later overwrite before run on some path is covered by `bad`
+    _step_empty_checks(ctx, f, lp, g, header, run_nodes, run_call, RUN)
+
+
+def _step_empty_checks(ctx, f, lp, g, header, run_nodes, run_call, QUAL):
+    def dominated_by(store_nodes):
+        return all(g.all_paths_pass(header, [rn], store_nodes) for rn in run_nodes) and bool(store_nodes)
+
     empties = [c for c in stmt_calls(f, ctx.R, {f"{DET}.empty"}) if contains(lp, c)]
     if not empties:
-        ctx.fail(RUN + "#step-empty", "no detector.empty(...) inside the step: buckets are never emptied between steps", where=f, node=lp)
+        ctx.fail(QUAL + "#step-empty", "no detector.empty(...) inside the step: buckets are never emptied between steps", where=f, node=lp)
         return
     ND = ("processor.detector.non_destructive_readout", "processor.detector.readout_properties.non_destructive", "readout.non_destructive", "detector.non_destructive_readout", "detector.readout_properties.non_destructive")
 
@@ -358,24 +365,37 @@ def r4_step_loop(ctx):
             # what the enclosing decision says about non_destructive
             nd = _nd_polarity(enclosing_tests(c, stop=lp))
             pol_ok = nd is not None and argx.value == (not nd)
+        if not pol_ok and isinstance(argx, ast.Name):
+            # `if non_destructive: flag = False else: flag = True; empty(flag)`: decided per path
+            from sa.paths import enumerate_paths
+
+            verdicts = []
+            for q_ in enumerate_paths(lp.body):
+                for fn_, c_, _ in q_.called("empty"):
+                    if getattr(c_, "_src", c_) is not c and norm(getattr(c_, "_src", c_)) != norm(c):
+                        continue
+                    a_ = arg_or_kw(c_, 0, "reset")
+                    nd = _nd_polarity(q_.conds)
+                    verdicts.append(isinstance(a_, ast.Constant) and isinstance(a_.value, bool) and nd is not None and a_.value == (not nd))
+            pol_ok = bool(verdicts) and all(verdicts)
         ctx.check(
             pol_ok,
-            RUN + "#step-empty-polarity",
+            QUAL + "#step-empty-polarity",
             "pixel reset flag = not non_destructive" if pol_ok else f"detector.empty is called with reset={norm(argx)}; expected `not detector.non_destructive_readout`",
             where=f,
             node=c,
         )
         recv = dotted(expand(f, c.func.value)) if isinstance(c.func, ast.Attribute) else None
-        ctx.check(recv == "processor.detector", RUN + "#step-empty-recv", "empties processor.detector" if recv == "processor.detector" else f"empties {recv}", where=f, node=c)
+        ctx.check(recv in ("processor.detector", "detector"), QUAL + "#step-empty-recv", "empties processor.detector" if recv in ("processor.detector", "detector") else f"empties {recv}", where=f, node=c)
     en = [n for n in g.nodes if n.ast is not None and n.kind == "stmt" and any(contains(n.ast, c) for c in empties)]
     ok = dominated_by(en)
-    ctx.check(ok, RUN + "#step-empty-first", "detector.empty(...) dominates the model run in every step" if ok else "a path reaches the model run without emptying the buckets", where=f, node=empties[0])
+    ctx.check(ok, QUAL + "#step-empty-first", "detector.empty(...) dominates the model run in every step" if ok else "a path reaches the model run without emptying the buckets", where=f, node=empties[0])
     lo, hi = g.count_events_per_iteration(header, en)
-    ctx.check(hi <= 1, RUN + "#step-empty-once", f"one empty per step (max {hi})", where=f, node=empties[0])
+    ctx.check(hi <= 1, QUAL + "#step-empty-once", f"one empty per step (max {hi})", where=f, node=empties[0])
     # nothing empties after the run inside the step (would wipe results before extraction)
     for c in empties:
         if c.lineno > run_call.lineno:
-            ctx.fail(RUN + "#step-empty-after", "detector.empty is called after the model run inside the step", where=f, node=c)
+            ctx.fail(QUAL + "#step-empty-after", "detector.empty is called after the model run inside the step", where=f, node=c)
 
 
 def _unconditional_once(ctx, f, call: ast.Call) -> bool:
@@ -552,4 +572,22 @@ def r6_clock_algebra(ctx):
             ctx.check(ok, fn.qual, why if ok else f"{name}: {why}; expected pipeline_count == {'0' if 'first' in name else 'num_steps - 1'}", where=fn, node=fn.node.body[-1])
 
 
-RULES = [r1_reject_before_model, r2_keyword_wiring, r3_initial_reset, r4_step_loop, r5_what_empty_empties, r6_clock_algebra]
+def r7_legacy_runner_agrees(ctx):
+    """The deprecated exposure runner (pyxel.exposure_mode / observation_mode / legacy calibration) is a sibling of run_pipeline: inside its step loop detector.empty(reset) gets `not non_destructive`, dominates the model run and happens once per step."""
+    q = "pyxel.exposure.exposure:_run_exposure_pipeline_deprecated"
+    if not ctx.repo.has_func(q):
+        ctx.note("deprecated exposure runner removed")
+        ctx.ok(q, "no legacy runner", where=ctx.func(RUN), node=ctx.func(RUN).node)
+        return
+    f = ctx.func(q)
+    g = ctx.cfg(f)
+    lp, runs = _step_loop(ctx, f)
+    if lp is None or not isinstance(lp, ast.For):
+        raise AnalysisError("legacy runner: step loop not recognised")
+    header = g.node_of(lp)
+    run_call = runs[0]
+    run_nodes = [n for n in g.nodes if n.ast is not None and n.kind == "stmt" and contains(n.ast, run_call)]
+    _step_empty_checks(ctx, f, lp, g, header, run_nodes, run_call, q)
+
+
+RULES = [r7_legacy_runner_agrees, r1_reject_before_model, r2_keyword_wiring, r3_initial_reset, r4_step_loop, r5_what_empty_empties, r6_clock_algebra]
